@@ -326,7 +326,7 @@ func init() {
 		Level:       "exploration",
 		Rule:        "case = PRNG program over Write chunk / Next / Flush / reader Begin/Next/Read(partial)/Done / ACK / reopen with event sizes from the boundary table (1..5, page payload-4+-2, k*payload-4+-2, page size, multi page) mixed with random sizes, 1..n Write chunks per event, page size in {1024,4096}, write buffer in {0,1,4,8,16 pages}, bounded and unbounded files; oracle = sequential queue model with unique event contents (id,len,PRNG fill): every Next size and every Read byte range must equal the model, end-of-queue only inside the flushed bracket, no phantom/duplicate/merged event, final close/reopen/drain delivers every completed event; distinct = trace hash; non-trivial = >=3 events completed and >=1 delivered",
 		Assumptions: qAssumptions,
-		NumCases:    func(t string) int { return tierN(t, 1500, 40000) },
+		NumCases:    func(t string) int { return tierN(t, 1500, 20000) },
 		Race:        func(t string, i int) bool { return i%50 == 0 },
 		Run: func(c *core.Case) *core.Result {
 			return runQueueModelCase(c, QMon{Property: "C05"}, nil)
